@@ -23,7 +23,9 @@ func (v otrV2) parameterLength() int {
 }
 
 func (v otrV2) isGroupElement(n *big.Int) bool {
-	return true
+	// OTRv2 does not range check SMP values, but a value that is zero modulo p has
+	// no inverse: dividing by it (or by a power of it) dereferences a nil *big.Int
+	return mod(n, p).Sign() != 0
 }
 
 func (v otrV2) isFragmented(data []byte) bool {
